@@ -515,3 +515,12 @@ def wordlist_fixed(ctx):
     n = run(ctx, 'mnemonic', 'Mnemonic', ['to_mnemonic', 'word', 'wordlist', 'generate'],
             'after the object has looked at a sentence in another language, to_mnemonic()/generate() return words of that language: not the BIP39 sentence of the list the object stands for')
     ctx.floor(n, 1, 'attributes read by the generating methods')
+
+
+@PROP.obligation('C14.no-shared-tables')
+def no_shared_tables(ctx):
+    """Every Mnemonic object works with the word list of ITS language. No method of the class fills or changes a container that is
+    defined in the class body (one dictionary for all objects of the process) through self: a word index built lazily for the first
+    language that decodes would be used by the objects of every other language."""
+    from .common_effect import class_shared_state as run
+    run(ctx, 'mnemonic', 'Mnemonic', 'after an English sentence was decoded, Mnemonic("japanese").to_entropy(<valid sentence>) raises "not in list", and a French sentence made of words shared with English decodes to the English entropy')
